@@ -92,6 +92,7 @@ func (r *Router) RestoreLastSavedState() error {
 
 func (r *Router) ServeHTTP(w http.ResponseWriter, req *http.Request) {
 	service, prefix := r.serviceForRequest(req)
+	verifYield("routed", req, service)
 	if service == nil {
 		SetErrorResponse(w, req, http.StatusNotFound, nil)
 		return
@@ -170,6 +171,7 @@ func (r *Router) RemoveService(name string) error {
 		}
 
 		service.Dispose()
+		verifEmit("remove", service)
 		r.services.Remove(service.name)
 
 		return nil
@@ -268,21 +270,26 @@ func (r *Router) deployTargetsIntoService(service *Service, targetSlot TargetSlo
 	}
 
 	lb := NewLoadBalancer(tl)
+	verifEmit("dep_new_lb", service, lb, int(targetSlot))
 	err = lb.WaitUntilHealthy(deployTimeout)
 	if err != nil {
 		lb.Dispose()
 		return err
 	}
 
+	verifYield("dep_healthy", service, lb)
 	replaced := service.UpdateLoadBalancer(lb, targetSlot)
+	verifYield("dep_pre_install", service, lb)
 
 	err = r.installService(service)
 	if err != nil {
 		return err
 	}
 
+	verifYield("dep_installed", service, lb)
 	if replaced != nil {
 		replaced.DrainAll(drainTimeout)
+		verifYield("dep_drained", service, lb)
 		replaced.Dispose()
 	}
 
@@ -296,10 +303,12 @@ func (r *Router) installService(s *Service) error {
 		conflict := r.services.CheckAvailability(s.name, s.options)
 		if conflict != nil {
 			slog.Error("Host settings conflict with another service", "service", conflict.name)
+			verifEmit("install_conflict", s)
 			return ErrorHostInUse
 		}
 
 		r.services.Set(s)
+		verifEmit("install", s)
 		return nil
 	})
 	if err != nil {
@@ -319,6 +328,7 @@ func (r *Router) findOrCreateService(name string, options ServiceOptions, target
 }
 
 func (r *Router) saveStateSnapshot() error {
+	verifYield("snap_begin", r)
 	services := []*Service{}
 	r.withReadLock(func() error {
 		for _, service := range r.services.All() {
@@ -327,17 +337,20 @@ func (r *Router) saveStateSnapshot() error {
 		return nil
 	})
 
+	verifYield("snap_listed", r)
 	f, err := os.Create(r.statePath)
 	if err != nil {
 		return err
 	}
 
+	verifYield("snap_created", r)
 	err = json.NewEncoder(f).Encode(services)
 	if err != nil {
 		slog.Error("Unable to save state", "error", err, "path", r.statePath)
 		return err
 	}
 
+	verifYield("snap_written", r)
 	slog.Debug("Saved state", "path", r.statePath)
 	return nil
 }
